@@ -399,13 +399,18 @@ def run_check(prop, target, tier, cfg, describe):
     distinct = count_distinct(exe, pool.hash_files)
 
     candidates, infra = [], list(pool.infra)
+    history_notes = []
     for w in ws:
         for r in w.reports:
             if r.get("rerun_same") is False:
-                infra.append("seed %s: the same plan gave %s/%s then %s/%s in one worker"
-                             % (r["seed"], r["result"]["outcome"], r["result"]["hash"],
-                                r["rerun"]["outcome"], r["rerun"]["hash"]))
-                continue
+                # the second execution in the same process differed: either the
+                # simulator is not deterministic or the code under test keeps
+                # state from run to run. Two fresh processes decide (below).
+                history_notes.append("seed %s: the same plan gave %s/%s then %s/%s in one worker process"
+                                     % (r["seed"], r["result"]["outcome"], r["result"]["hash"],
+                                        r["rerun"]["outcome"], r["rerun"]["hash"]))
+                if r["result"]["outcome"] == "OK":
+                    continue
             candidates.append((r["seed"], r["plan"], r["result"]))
         for d in w.deaths:
             if d.get("infra"):
@@ -413,11 +418,18 @@ def run_check(prop, target, tier, cfg, describe):
             seed_hex = "%016x" % d["seed"]
             plan = gen_plan(exe, d["seed"], tier)
             candidates.append((seed_hex, plan, classify_crash(d["rc"], d["stderr"])))
-    if tot["recheck_mismatch"]:
-        infra.append("%d determinism re-runs disagreed" % tot["recheck_mismatch"])
-
     violations, known_hits, infra2 = process_candidates(prop, exe, tier, candidates[:12], sys.stderr)
     infra += infra2
+    if tot["recheck_mismatch"] or history_notes:
+        msg = ("%d in-process re-runs disagreed with the first execution (state kept from run to run)"
+               % max(tot["recheck_mismatch"], len(history_notes)))
+        if violations or known_hits:
+            # confirmed in fresh processes: the dependence on the process history
+            # belongs to the code under test
+            print("note: " + msg)
+        else:
+            infra.append(msg)
+            infra += history_notes[:5]
 
     wall = time.time() - t0
     runs = tot["runs"]
